@@ -21,7 +21,14 @@ Definition run_t := list (greq * igraph).
 (* world, registered entities, entities with graph: false, show_proc_parent,
    node labels as written in the DOT sources (one per node: the harness checks they agree across graphs),
    the runs *)
-Definition case := (world * list nat * list nat * bool * list (nat * str) * list run_t)%type.
+Definition case := (world * list nat * list nat * bool * list (nat * str) * list run_t *
+                    option (world * option (world * nat) * list nat * list nat))%type.
+(* last component: the Spec side supplied by the generator — a world with the same entities whose relation
+   fields state what the generated source declares (not what FORD derived); optionally the same with the
+   recorded relation-level findings applied and the mask of those findings (16 module-procedure-impl-edge,
+   32 external-procedure-call-unresolved); the entities expected to be registered and those with
+   "graph: false".  None (hand-written projects, loose generator mode): the Spec side falls back to the
+   relation read from FORD's objects. *)
 
 (* ------------------------------------------------------------------ model = implementation *)
 Definition edge_eqb (a b : edge) : bool :=
@@ -96,10 +103,13 @@ Definition expected_nodes (w : world) (dl : nat -> list decl) (univ : list nat) 
              (q_roots q) (q_depth w q) (max_nodes (q_limits q)).
 
 (* every arrow t -> h is a declared relation "t uses / extends / contains / calls / implements / depends on h" *)
+Definition arrow_declared (dl : nat -> list decl) (c : gclass) (t h : nat) (lab : str) : bool :=
+  existsb (fun d => existsb (fun r => rel_eqb (fst r) (fst (fst d))) (rels_of_class c) &&
+                    Nat.eqb (d_target d) h && str_eqb (snd d) lab) (dl t).
 Definition edges_declared (dl : nat -> list decl) (c : gclass) (es : list edge) : bool :=
-  forallb (fun e => memn (e_head e) (declared_succ_f dl c (e_tail e))) es.
+  forallb (fun e => arrow_declared dl c (e_tail e) (e_head e) (e_lab e)) es.
 Definition edges_reversed (dl : nat -> list decl) (c : gclass) (es : list edge) : bool :=
-  forallb (fun e => memn (e_tail e) (declared_succ_f dl c (e_head e))) es.
+  forallb (fun e => arrow_declared dl c (e_head e) (e_tail e) (e_lab e)) es.
 
 (* CallGraph as the code counts: every callee of every root plus every root *)
 Definition callgraph_quirk (dl : nat -> list decl) (q : greq) (i : igraph) : bool :=
@@ -178,34 +188,68 @@ Definition run_spec (w : world) (dl : nat -> list decl) (erl nograph : list nat)
                (fst acc || fst v, Nat.lor (snd acc) (snd v)))
             r (negb (inverse_pairs_ok r), 0).
 
+Definition spec_of (ws : world) (sregs snograph : list nat) (runs : list run_t) : bool * nat :=
+  let tab := decl_table ws in
+  let dl := tab_get tab in
+  let erl := early ws dl sregs in
+  fold_left (fun acc r => let v := run_spec ws dl erl snograph r in
+                          (fst acc || fst v, Nat.lor (snd acc) (snd v))) runs (false, 0).
+
 Definition judge (c : case) : nat :=
   match c with
-  | (w, regs, nograph, show, labels, runs) =>
-    let tab := decl_table w in
-    let dl := tab_get tab in
-    let erl := early w dl regs in
+  | (w, regs, nograph, show, labels, runs, gen) =>
     let mm := negb (forallb (run_matches w regs) runs && labels_match w show labels) in
-    let sp := fold_left (fun acc r => let v := run_spec w dl erl nograph r in
-                                      (fst acc || fst v, Nat.lor (snd acc) (snd v))) runs (false, 0) in
+    let sp :=
+      match gen with
+      | None => spec_of w regs nograph runs
+      | Some (ws, adj, sregs, snograph) =>
+        let v0 := spec_of ws sregs snograph runs in
+        if fst v0 then
+          match adj with
+          | None => v0
+          | Some (wa, mask) =>
+            let v1 := spec_of wa sregs snograph runs in
+            if fst v1 then v1 else (false, Nat.lor (snd v1) mask)
+          end
+        else v0
+      end in
     verdict mm (fst sp) (snd sp)
   end.
 
 (* per-graph detail for replays: (run, graph index, model-mismatch, unexplained, regions) *)
 Definition detail (c : case) : list (nat * nat * bool * bool * nat) :=
   match c with
-  | (w, regs, nograph, show, labels, runs) =>
-    let tab := decl_table w in
+  | (w, regs, nograph, show, labels, runs, gen) =>
+    let '(ws, sregs, snograph) :=
+      match gen with Some (ws, _, sregs, snograph) => (ws, sregs, snograph) | None => (w, regs, nograph) end in
+    let tab := decl_table ws in
     let dl := tab_get tab in
-    let erl := early w dl regs in
+    let erl := early ws dl sregs in
     flat_map (fun kr =>
       let r := snd kr in
       let univ := nd (flat_map (fun qi => i_nodes (snd qi)) r) in
       let gs := run w regs (map fst r) in
       flat_map (fun x =>
         let '(j, (qi, g)) := x in
-        let v := graph_spec w dl erl nograph univ (fst qi) (snd qi) in
+        let v := graph_spec ws dl erl snograph univ (fst qi) (snd qi) in
         let mm := negb (same_graph g (snd qi)) in
         if mm || fst v || negb (Nat.eqb (snd v) 0) then [(fst kr, j, mm, fst v, snd v)] else [])
         (combine (seq 0 (length r)) (combine r gs)))
       (combine (seq 0 (length runs)) runs)
+  end.
+
+(* diagnostics for replays: entities whose declared relation (Spec side) differs from the one FORD derived,
+   as (entity, relations only FORD has, relations only the source has) *)
+Definition decl_eqb (a b : decl) : bool :=
+  rel_eqb (fst (fst a)) (fst (fst b)) && Nat.eqb (d_target a) (d_target b) && str_eqb (snd a) (snd b).
+Definition decl_diff (a b : list decl) : list decl := filter (fun d => negb (existsb (decl_eqb d) b)) a.
+Definition relation_diff (c : case) : list (nat * list decl * list decl) :=
+  match c with
+  | (w, _, _, _, _, _, Some (ws, _, _, _)) =>
+    flat_map (fun ke =>
+      let x := fst ke in
+      let a := decl_diff (decls w x) (decls ws x) in
+      let b := decl_diff (decls ws x) (decls w x) in
+      match a, b with [], [] => [] | _, _ => [(x, a, b)] end) ws
+  | _ => []
   end.
